@@ -1,7 +1,80 @@
 //! Operation families whose inputs are not three scalars (quire histories, generic widths, polynomials, sampling).
-#![allow(unused_imports)]
+#![allow(unused_imports, unused_macros)]
 use softposit::*;
 
-pub fn run(_v: &[&str]) -> Option<String> {
-    None
+fn hx(s: &str) -> u64 {
+    u64::from_str_radix(s, 16).unwrap()
+}
+
+/// quire history: tokens
+///   ap a b | sp a b        q += (a,b) / q -= (a,b)
+///   a1 a | s1 a            q += a / q -= a
+///   ap2 x a b | sp2 x a b  q += (x,(a,b))
+///   ap3 x a b c            q += (x,(a,b,c))
+///   ap22 a b c d | sp22    q += ((a,b),(c,d))
+///   apa x n p.. | spa      q += (x,[p;n])  n in 1..=4
+///   mp a b | ms a b        q.add_product(a,b) / q.sub_product(a,b)      (inherent methods)
+///   tp a b | ts a b        Quire::add_product / Quire::sub_product       (trait methods)
+///   fp a                   q = Q::from_posit(a)
+///   neg | clear | rt       q.neg() / q.clear() / q = from_bits(to_bits(q))
+/// result: "<to_posit> <is_zero> <is_nar> <bits> <p1>,<p2> <p1>,<p2>,<p3>"
+macro_rules! quire_hist {
+    ($Q:ty, $P:ty, $U:ty, $v:expr, $fmtbits:expr, $clone:expr) => {{
+        let v: &[&str] = $v;
+        let p = |s: &str| <$P>::from_bits(hx(s) as $U);
+        let mut q = <$Q>::init();
+        let mut i = 2;
+        while i < v.len() {
+            match v[i] {
+                "ap" => { q += (p(v[i + 1]), p(v[i + 2])); i += 3; }
+                "sp" => { q -= (p(v[i + 1]), p(v[i + 2])); i += 3; }
+                "a1" => { q += p(v[i + 1]); i += 2; }
+                "s1" => { q -= p(v[i + 1]); i += 2; }
+                "ap2" => { q += (p(v[i + 1]), (p(v[i + 2]), p(v[i + 3]))); i += 4; }
+                "sp2" => { q -= (p(v[i + 1]), (p(v[i + 2]), p(v[i + 3]))); i += 4; }
+                "ap3" => { q += (p(v[i + 1]), (p(v[i + 2]), p(v[i + 3]), p(v[i + 4]))); i += 5; }
+                "ap22" => { q += ((p(v[i + 1]), p(v[i + 2])), (p(v[i + 3]), p(v[i + 4]))); i += 5; }
+                "sp22" => { q -= ((p(v[i + 1]), p(v[i + 2])), (p(v[i + 3]), p(v[i + 4]))); i += 5; }
+                "apa" | "spa" => {
+                    let x = p(v[i + 1]);
+                    let n = hx(v[i + 2]) as usize;
+                    let add = v[i] == "apa";
+                    match n {
+                        1 => { let a = [p(v[i + 3])]; if add { q += (x, a) } else { q -= (x, a) } }
+                        2 => { let a = [p(v[i + 3]), p(v[i + 4])]; if add { q += (x, a) } else { q -= (x, a) } }
+                        3 => { let a = [p(v[i + 3]), p(v[i + 4]), p(v[i + 5])]; if add { q += (x, a) } else { q -= (x, a) } }
+                        4 => { let a = [p(v[i + 3]), p(v[i + 4]), p(v[i + 5]), p(v[i + 6])]; if add { q += (x, a) } else { q -= (x, a) } }
+                        _ => panic!("bad array length"),
+                    }
+                    i += 3 + n;
+                }
+                "mp" => { q.add_product(p(v[i + 1]), p(v[i + 2])); i += 3; }
+                "ms" => { q.sub_product(p(v[i + 1]), p(v[i + 2])); i += 3; }
+                "tp" => { <$Q as Quire<$P>>::add_product(&mut q, p(v[i + 1]), p(v[i + 2])); i += 3; }
+                "ts" => { <$Q as Quire<$P>>::sub_product(&mut q, p(v[i + 1]), p(v[i + 2])); i += 3; }
+                "fp" => { q = <$Q>::from_posit(p(v[i + 1])); i += 2; }
+                "neg" => { q.neg(); i += 1; }
+                "clear" => { q.clear(); i += 1; }
+                "rt" => { q = <$Q>::from_bits(q.to_bits()); i += 1; }
+                t => panic!("bad token {}", t),
+            }
+        }
+        let tp = q.to_posit();
+        let z = q.is_zero() as u8;
+        let n = q.is_nar() as u8;
+        let bits = $fmtbits(&q);
+        let (a, b) = $clone(&q).into_two_posits();
+        let (c, d, e) = $clone(&q).into_three_posits();
+        format!("{:x} {} {} {} {:x},{:x} {:x},{:x},{:x}", tp.to_bits(), z, n, bits, a.to_bits(), b.to_bits(), c.to_bits(), d.to_bits(), e.to_bits())
+    }};
+}
+
+pub fn run(v: &[&str]) -> Option<String> {
+    match (v[0], v[1]) {
+        ("q8", "hist") => Some(quire_hist!(Q8E0, P8E0, u8, v, |q: &Q8E0| format!("{:08x}", q.to_bits()), |q: &Q8E0| Q8E0::from_bits(q.to_bits()))),
+        ("q16", "hist") => Some(quire_hist!(Q16E1, P16E1, u16, v, |q: &Q16E1| format!("{:032x}", q.to_bits()), |q: &Q16E1| Q16E1::from_bits(q.to_bits()))),
+        ("q32", "hist") => Some(quire_hist!(Q32E2, P32E2, u32, v,
+            |q: &Q32E2| q.to_bits().iter().map(|x| format!("{:016x}", x)).collect::<String>(), |q: &Q32E2| Q32E2::from_bits(q.to_bits()))),
+        _ => None,
+    }
 }
